@@ -45,10 +45,19 @@ def mk (maxSize : Nat) (batchSize timeout : Int) : Svc := { q := Queue.mk maxSiz
 def finish (v : Svc) (r : Req) : Svc :=
   { v with q := Queue.next v.q (.closeReq v.done.length), done := v.done ++ [r], cur := none, lastSeq := r.seq }
 
+/-- how `runQueue` classifies a failed `Execute` (for its log line and counters ONLY) -/
+inductive ErrKind where
+  | leaderNotFound      -- errors.Is(err, proxy.ErrLeaderNotFound)
+  | leadershipLost      -- "leadership lost while committing log"
+  | notLeader           -- "not leader"
+  | other               -- anything else: connection refused, i/o timeout, store not open, ...
+deriving Repr, DecidableEq
+
 inductive Step where
   | queue (st : Queue.Step)   -- any producer / run-loop / timer step of the queue (not the consumer's)
   | take                      -- `case req := <-s.stmtQueue.C`
-  | execFail                  -- Execute returned an error; sleep; retry
+  | execFail (k : ErrKind)    -- Execute returned an error of ANY kind: count it, sleep, retry the same batch.
+                              -- The retry loop is left only by success (`execOk`) or shutdown (`stop`).
   | execOk                    -- Execute returned nil
   | execFailCommitted         -- Execute returned an error (e.g. "leadership lost while committing log",
                               -- a lost forward response) but raft did commit and apply the batch
@@ -70,7 +79,7 @@ def step (v : Svc) : Step → Option Svc
     | some r =>
       let v1 := { v with q := Queue.next v.q .consume }
       if r.objs.isEmpty then some (finish v1 r) else some { v1 with cur := some r }
-  | .execFail =>
+  | .execFail _ =>
     if v.stopped then none else
     match v.cur with
     | some _ => some { v with failed := v.failed + 1 }
@@ -133,7 +142,14 @@ def step' (d : DState) (line : String) : DState × String :=
   | ["fire"] => qStep d (Queue.fire d.v.q) "disabled"
   | ["send"] => qStep d (Queue.send d.v.q) "disabled"
   | ["take"] => optStep d (step d.v .take)
-  | ["execfail"] => optStep d (step d.v .execFail)
+  | ["execfail"] => optStep d (step d.v (.execFail .other))
+  | ["execfail", k] =>
+    match k with
+    | "leader-not-found" => optStep d (step d.v (.execFail .leaderNotFound))
+    | "leadership-lost" => optStep d (step d.v (.execFail .leadershipLost))
+    | "not-leader" => optStep d (step d.v (.execFail .notLeader))
+    | "other" => optStep d (step d.v (.execFail .other))
+    | _ => (d, "bad-op")
   | ["execok"] => optStep d (step d.v .execOk)
   | ["execfailcommitted"] => optStep d (step d.v .execFailCommitted)
   | ["stop"] => optStep d (step d.v .stop)
